@@ -142,7 +142,30 @@ def check_case(case, rec):
         outcome = "RecursionError"
     except Exception as exc:
         outcome = type(exc).__name__
+    def attempt(fn):
+        try:
+            fn()
+            return "ok"
+        except RecursiveModelStructure:
+            return "recursive_model_error"
+        except UnexpectedError as exc:
+            return "UnexpectedError(%s)" % type(exc.exc).__name__
+        except RecursionError:
+            return "RecursionError"
+        except Exception as exc:
+            return type(exc).__name__
+
     fails = []
+    if cyclic and outcome == "recursive_model_error" and case.get("again", True):
+        # the model stays rejected however often it is run or its results are read afterwards
+        on_list = sorted(on)
+        target = name(on_list[(case.get("pick", 0)) % len(on_list)])
+        second = attempt(lambda: prog.commands[target].result) if case.get("pick", 0) % 2 else attempt(prog.run)
+        third = attempt(prog.run)
+        rec.label("rerun_after_rejection")
+        if second != "recursive_model_error" or third != "recursive_model_error":
+            fails.append(Failure("cyclic_model_rerun:%s/%s|%s" % (second, third, cls),
+                                 "after the first rejection: second attempt %s, third run() %s for\n%s" % (second, third, text)))
     if cyclic:
         if outcome != "recursive_model_error":
             executed = sorted(set(nm for ev, nm in vlog.LOG if ev == "enter"))
@@ -199,7 +222,7 @@ def small_graphs(ctx):
             for kinds in kind_assignments(adj, full=not ctx.quick):
                 orders = list(itertools.permutations(range(n)))
                 for order in orders:
-                    yield {"n": n, "adj": adj, "kinds": kinds, "order": list(order), "lib": "testlib"}
+                    yield {"n": n, "adj": adj, "kinds": kinds, "order": list(order), "lib": "testlib", "pick": bits + len(kinds[0])}
             if n <= 2 or bits % 7 == 0:
                 for fuzzy in (False, True):
                     yield {"n": n, "adj": adj, "kinds": None, "order": list(range(n)), "lib": "builtin", "fuzzy": fuzzy}
@@ -235,7 +258,7 @@ def larger_graphs(draw):
     kinds = [[draw(st.sampled_from("dl")) for _ in a] for a in adj]
     order = list(draw(st.permutations(list(range(n)))))
     lib = draw(st.sampled_from(["testlib", "testlib", "testlib", "builtin"]))
-    return {"n": n, "adj": adj, "kinds": kinds, "order": order, "lib": lib, "fuzzy": draw(st.booleans())}
+    return {"n": n, "adj": adj, "kinds": kinds, "order": order, "lib": lib, "fuzzy": draw(st.booleans()), "pick": draw(st.integers(0, 9))}
 
 
 PARTS = {"graph": check_case}
